@@ -34,6 +34,7 @@ RULE = ("WeightedAverage and WeightedSum x {Automatic, TakagiSugeno, Tsukamoto} 
         "incl. exact 0, 1, NaN/inf; mixtures that make type inference fail and terms without tsukamoto are part of the "
         "stream (same exception in model and implementation). Also compared: grouped_terms() and activation_degree(). "
         "A case is non-trivial when the result is a finite number; distinct = distinct input")
+RULE += (" Stream `highest-activated` (fv/streams/highest_activated.py): Aggregated.highest_activated_term (scalar degrees, 1-D degrees of one entry, batches -> ValueError) and Aggregated.range against Op.Weighted.highestActivated.")
 ASSUMPTIONS = ["numbers: 1e-9 abs+rel relative to the magnitude of the accumulated terms",
                "Arc is left out (C03/F1: its centre is computed with rounding); Function terms are polynomials in x whose "
                "coefficients are function variables (formula evaluation itself is C17)",
